@@ -149,6 +149,25 @@ def _reads(rec):
     return out
 
 
+KNOWN_DEFAULTS = {
+    # keyword -> values that are the documented default of the numpy / scipy / builtin callee it is used with in pyiga
+    'endpoint': ('True',), 'copy': ('True',), 'order': ("'C'",), 'indexing': ("'xy'",), 'side': ("'left'",), 'keepdims': ('False',),
+    'reverse': ('False',), 'axis': ('None',), 'kind': ("'quicksort'", 'None'), 'sparse': ('False',), 'check_finite': ('True',),
+    'overwrite_a': ('False',), 'overwrite_b': ('False',), 'lower': ('False',), 'return_index': ('False',), 'return_inverse': ('False',),
+    'return_counts': ('False',), 'assume_unique': ('False',), 'exist_ok': ('False',), 'ignore_errors': ('False',), 'out': ('None',),
+    'dtype': ('None', 'float', 'np.float64', 'np.double'), 'format': ('None',), 'subok': ('True',), 'ndmin': ('0',),
+}
+
+
+def _is_default_keyword(expr, kwname):
+    for c in ast.walk(expr):
+        if isinstance(c, ast.Call):
+            for kw in c.keywords:
+                if kw.arg == kwname and src(kw.value) in KNOWN_DEFAULTS.get(kwname, ()):
+                    return True
+    return False
+
+
 def classify(ref_rec, cur_rec):
     """('equal'|'mutation'|'different', description)"""
     if ref_rec[0] != cur_rec[0] or len(ref_rec[1]) != len(cur_rec[1]):
@@ -167,6 +186,17 @@ def classify(ref_rec, cur_rec):
                     same_body = False
                 if same_body:       # (negated test with swapped branches is the same statement)
                     v, d = 'mutation', 'condition negated'
+        if v == 'different':
+            # the other direction: the reference is one `dropped` mutation away from the current statement, i.e. a keyword
+            # argument (with a non-default value), a conjunct or a disjunct was ADDED
+            v2, d2 = treecmp.compare(r, c, mutations=('keyword argument', 'conjunct', 'disjunct'))
+            if v2 == 'mutation':
+                if d2.startswith('keyword argument'):
+                    kwname = d2.split()[2]
+                    if not _is_default_keyword(c, kwname):
+                        v, d = 'mutation', d2.replace('dropped', 'added')
+                else:
+                    v, d = 'mutation', d2.replace('dropped from', 'added to')
         if v == 'equal':
             continue
         if v == 'mutation':
